@@ -88,6 +88,29 @@ async fn settle(db: &Database) {
     db.verif_quiesce().await;
 }
 
+/// Let the other tasks run until nothing seems to happen any more: no task finishes a schedule point
+/// or file operation for `idle_ms` of real time (bounded by `max_ms`).  Used with the gate: a task is
+/// then either parked at a point, blocked on a lock, or done.
+async fn quiet(idle_ms: u64, max_ms: u64) {
+    let t0 = std::time::Instant::now();
+    let mut last = std::time::Instant::now();
+    let mut seen = risinglight::verif::sched::parked().len();
+    loop {
+        for _ in 0..64 {
+            tokio::task::yield_now().await;
+        }
+        let now = risinglight::verif::sched::parked().len();
+        if now != seen {
+            seen = now;
+            last = std::time::Instant::now();
+        }
+        if last.elapsed().as_millis() as u64 >= idle_ms || t0.elapsed().as_millis() as u64 >= max_ms {
+            return;
+        }
+        std::thread::sleep(std::time::Duration::from_millis(1));
+    }
+}
+
 pub fn run(v: &Value) -> Value {
     // "dir": run on this (existing or new) directory and leave it in place; default: a temp dir
     let dir = tempfile::tempdir().unwrap();
@@ -111,6 +134,8 @@ pub fn run(v: &Value) -> Value {
                 usize,
             ),
         > = Default::default();
+        // statements running as their own tasks (C09 / C10): name -> join handle
+        let mut pending: std::collections::HashMap<String, tokio::task::JoinHandle<Value>> = Default::default();
         // "atomic": true keeps the (paused) clock from auto-advancing while a statement waits for
         // file I/O, so that the background compactor / vacuum only run inside `sleep_ms` steps
         // (and once when the database is opened): a task that keeps the runtime busy.
@@ -138,7 +163,7 @@ pub fn run(v: &Value) -> Value {
             }
         };
         mark("open_begin".into());
-        let mut db = Some(open(v, &path).await);
+        let mut db = Some(std::sync::Arc::new(open(v, &path).await));
         if atomic {
             settle(db.as_ref().unwrap()).await;
         }
@@ -183,7 +208,7 @@ pub fn run(v: &Value) -> Value {
                         if atomic {
                             settle(&d).await;
                         }
-                        db = Some(d);
+                        db = Some(std::sync::Arc::new(d));
                         outs.push(json!({"reopened": r.is_ok()}));
                     }
                     Err(p) => {
@@ -234,7 +259,7 @@ pub fn run(v: &Value) -> Value {
                 let fut = std::panic::AssertUnwindSafe(open(v, &path));
                 match futures::FutureExt::catch_unwind(fut).await {
                     Ok(d) => {
-                        db = Some(d);
+                        db = Some(std::sync::Arc::new(d));
                         outs.push(json!({"opened": true}));
                     }
                     Err(p) => {
@@ -277,6 +302,69 @@ pub fn run(v: &Value) -> Value {
                     }
                 }
                 outs.push(json!({"slept": ms}));
+            } else if let Some(g) = step.get("gate") {
+                // hold background tasks at the schedule points with these name prefixes
+                let prefixes = g.as_array().map(|a| a.iter().filter_map(|x| x.as_str().map(String::from)).collect()).unwrap_or_default();
+                risinglight::verif::sched::enable(prefixes);
+                outs.push(json!({"gated": true}));
+            } else if step["ungate"].as_bool() == Some(true) {
+                let log = risinglight::verif::sched::disable();
+                quiet(40, 2000).await;
+                outs.push(json!({"arrivals": log}));
+            } else if let Some(ms) = step["tick"].as_u64() {
+                // advance the clock (background timers fire) without waiting for the background tasks to finish
+                busy.store(false, std::sync::atomic::Ordering::SeqCst);
+                wake.notify_one();
+                tokio::time::sleep(std::time::Duration::from_millis(ms)).await;
+                busy.store(atomic, std::sync::atomic::Ordering::SeqCst);
+                wake.notify_one();
+                quiet(40, 2000).await;
+                outs.push(json!({"parked": risinglight::verif::sched::parked().iter().map(|(_, n)| n.clone()).collect::<Vec<_>>()}));
+            } else if let Some(prefix) = step["release"].as_str() {
+                let r = risinglight::verif::sched::release(prefix);
+                quiet(40, 2000).await;
+                outs.push(json!({"released": r, "parked": risinglight::verif::sched::parked().iter().map(|(_, n)| n.clone()).collect::<Vec<_>>()}));
+            } else if let Some(sp) = step.get("spawn") {
+                // start a statement as its own task; it is joined by a later step
+                let (Some(dbr), Some(name), Some(sql)) = (db.as_ref(), sp["name"].as_str(), sp["sql"].as_str()) else {
+                    outs.push(json!({"err": "spawn: bad arguments"}));
+                    continue;
+                };
+                let d = dbr.clone();
+                let sql = sql.to_string();
+                let h = tokio::spawn(async move {
+                    let fut = std::panic::AssertUnwindSafe(d.run(&sql));
+                    match futures::FutureExt::catch_unwind(fut).await {
+                        Ok(Ok(chunks)) => json!({"ok": chunks_to_json(&chunks)}),
+                        Ok(Err(e)) => json!({"err": errstr(e)}),
+                        Err(p) => json!({"panic": panic_msg(p)}),
+                    }
+                });
+                pending.insert(name.to_string(), h);
+                quiet(40, step["wait_ms"].as_u64().unwrap_or(1500)).await;
+                let done = pending.get(name).map(|h| h.is_finished()).unwrap_or(false);
+                outs.push(json!({"spawned": name, "finished": done}));
+            } else if let Some(name) = step["join"].as_str() {
+                match pending.remove(name) {
+                    Some(h) => {
+                        // wait (in real time) for the statement; a statement that does not finish stays pending
+                        let t0 = std::time::Instant::now();
+                        let limit = step["timeout_ms"].as_u64().unwrap_or(5000) as u128;
+                        while !h.is_finished() && t0.elapsed().as_millis() < limit {
+                            tokio::task::yield_now().await;
+                        }
+                        if h.is_finished() {
+                            outs.push(match h.await {
+                                Ok(v) => v,
+                                Err(e) => json!({"panic": format!("task: {e}")}),
+                            });
+                        } else {
+                            pending.insert(name.to_string(), h);
+                            outs.push(json!({"pending": true}));
+                        }
+                    }
+                    None => outs.push(json!({"err": "no such statement"})),
+                }
             } else if let Some(r) = step.get("reader_open") {
                 // open a scan on a table of the disk engine and keep it (pins a version)
                 use risinglight::storage::{ScanOptions, Storage, StorageColumnRef, Table, Transaction};
@@ -482,6 +570,10 @@ pub fn run(v: &Value) -> Value {
         }
         if step_no > 0 {
             mark(format!("{}_end", step_no - 1));
+        }
+        risinglight::verif::sched::disable();
+        for (_, h) in pending.drain() {
+            h.abort();
         }
         for (_, (txn, it, _)) in readers.drain() {
             use risinglight::storage::Transaction;
